@@ -29,7 +29,7 @@ ASSUMPTIONS = ['the lookup and graph clauses are pure functions of their input a
                'flows per class) are the simulation targets',
                'Splitter copies are shallow: only scalar header fields are required to be independent',
                'flow ids are non-negative']
-PROBES = ['sub_demux', 'sub_hub', 'sub_split', 'sub_fattree', 'empty_table', 'unknown_flow_to_default', 'unknown_flow_nowhere',
+PROBES = ['table_replaced', 'split_packet_with_headers', 'sub_demux', 'sub_hub', 'sub_split', 'sub_fattree', 'empty_table', 'unknown_flow_to_default', 'unknown_flow_nowhere',
           'end_device_hit', 'hub_through_wires', 'hub_add_endpoint', 'two_hubs', 'hub_nested_reply', 'fattree_decoy', 'fattree_k2', 'fattree_k4', 'fattree_k6', 'fattree_tcp',
           'fattree_many_to_one', 'server_WFQ', 'server_DRR', 'server_SP', 'server_VirtualClock', 'ack_class_delivered']
 
@@ -46,6 +46,9 @@ def gen(rng, tier):
                 'fib': [[f, rng.randint(0, max(0, nouts))] for f in range(8) if rng.random() < 0.6] if rng.random() < 0.85 else [],
                 'ends': [f for f in range(8) if rng.random() < 0.2],
                 'server': rng.choice(['WFQ', 'DRR', 'SP', 'VirtualClock']), 'buffer': rng.choice([4, 64])}
+        if kind in ('FIBDemux', 'FairSwitch') and rng.random() < 0.35:
+            # the table is replaced while traffic flows: routes appear, move and disappear
+            case['fib2'] = [rng.randrange(len(flows) + 1), [[f, rng.randint(0, max(0, nouts))] for f in range(8) if rng.random() < 0.6]]
         return case
     if sub == 'hub':
         n = rng.randint(1, 5)
@@ -55,7 +58,10 @@ def gen(rng, tier):
                 'sends': [[rng.choice([0, 0.5, 1, 2]), rng.randrange(n)] for _ in range(rng.randint(1, 6))]}
     if sub == 'split':
         return {'sub': 'split', 'n': rng.choice([2, 2, 3, 4]), 'use_n': rng.random() < 0.5,
-                'connected': [rng.random() < 0.85 for _ in range(4)], 'npk': rng.randint(1, 5)}
+                'connected': [rng.random() < 0.85 for _ in range(4)], 'npk': rng.randint(1, 5),
+                # header fields beyond the constructor's: acknowledgements, coloured / stamped packets
+                'hdr': [[rng.choice([0, 0, 512, 4096]), rng.choice(['', 'green', 'red']), rng.choice([0, 0.25, 7]),
+                         rng.choice([None, [3, 2]]), rng.choice([None, ['p1', 0.5]])] for _ in range(5)]}
     k = rng.choice([2, 2, 4, 4, 4, 6] if tier == 'quick' else [2, 4, 4, 6, 6])
     nf = rng.randint(1, 12)
     return {'sub': 'fattree', 'k': k, 'nflows': nf, 'seed': rng.randrange(1 << 30), 'tcp': rng.random() < 0.4,
@@ -113,16 +119,22 @@ def run_demux(w, case):
     if not fib and kind in ('FIBDemux', 'FairSwitch'):
         stats['empty_table'] = 1
     sent = []
+    fib2 = case.get('fib2') if kind in ('FIBDemux', 'FairSwitch') else None
+    tables = [fib]
 
     def feeder():
         for n, f in enumerate(case.get('flows', [])):
+            if fib2 and n == fib2[0]:
+                tables.append(dict((ff, pp) for ff, pp in fib2[1]))
+                (d if kind == 'FIBDemux' else sw.demux).fib = tables[-1]
+                stats['table_replaced'] = 1
             p = Packet(env.now, 100, n + 1, flow_id=f, src='src')
-            sent.append((p, f))
+            sent.append((p, f, tables[-1]))
             entry.put(p)
             yield env.timeout(0.25)
     env.process(feeder())
     w.run(max_steps=20000)
-    for p, f in sent:
+    for p, f, fib in sent:
         where = [r.name for r in outs + ([dflt] if dflt else []) + list(ends.values()) if any(q is p for q in r.got)]
         count = sum(sum(1 for q in r.got if q is p) for r in outs + ([dflt] if dflt else []) + list(ends.values()))
         if kind in ('FlowDemux', 'SimpleSwitch'):
@@ -258,6 +270,14 @@ def run_hub(w, case):
 
 # ------------------------------------------------------------------------------------------- splitters
 
+ALL_FIELDS = ('time', 'size', 'packet_id', 'realtime', 'src', 'dst', 'flow_id', 'payload', 'color', 'priorities', 'ack',
+              'current_time', 'perhop_time')
+
+
+def all_fields(p):
+    return tuple((f, san(getattr(p, f, '<missing>'))) for f in ALL_FIELDS)
+
+
 def run_split(w, case):
     viol, stats = [], {'sub_split': 1}
     n = case['n']
@@ -272,7 +292,19 @@ def run_split(w, case):
         sp.out1, sp.out2 = recs
     for k in range(case.get('npk', 1)):
         p = Packet(1.5, 100 + k, k + 1, src='s', flow_id=3, payload=('pl', k))
+        hdr = (case.get('hdr') or [])
+        if hdr:
+            h = hdr[k % len(hdr)]
+            p.ack, p.color, p.current_time = h[0], h[1], h[2]
+            if h[3]:
+                p.priorities[h[3][0]] = h[3][1]
+            if h[4]:
+                p.perhop_time[h[4][0]] = h[4][1]
+            p.dst, p.realtime = 'd%d' % k, 0.5 * k
+            if h[0] or h[1] or h[3] or h[4]:
+                stats['split_packet_with_headers'] = 1
         before = fields_of(p)
+        before_all = all_fields(p)
         sp.put(p)
         for i, r in enumerate(recs):
             if r is None:
@@ -290,6 +322,9 @@ def run_split(w, case):
                     continue
                 if fields_of(got) != before:
                     viol.append(('C18.3', 'the copy on output %d differs from the original: %r vs %r' % (i, fields_of(got), before)))
+                elif all_fields(got) != before_all:
+                    viol.append(('C18.3', 'the copy on output %d differs from the original: %r vs %r' %
+                                 (i, all_fields(got), before_all)))
                 got.flow_id, got.packet_id, got.size, got.src, got.time = 99, 999, 1, 'changed', -1.0
                 if fields_of(p) != before:
                     viol.append(('C18.3', 'changing header fields of the copy on output %d changed the original' % i))
